@@ -16,6 +16,8 @@
 (*   store_begin / store_end th w n LRUCache.__setitem__ of the collection *)
 (*                                  (w = "coll") or the URI cache ("uric") *)
 (*                                  entered / left with n entries          *)
+(*   get_begin / got th uri ver     a get_template+render of the URI that  *)
+(*   put    th uri ver              put_string / put_template race for     *)
 (*   end    th out exc              the render returned; out = its tokens, *)
 (*                                  exc = "" or what it raised             *)
 (*   finish status                  scheduler: all returned / blocked      *)
@@ -29,15 +31,19 @@
 EXTENDS RenderShared, Json, IOUtils, TLCExt
 Traces == JsonDeserialize(IOEnv.TRACE_FILE)
 TraceProgs == Traces[1].progs
-VARIABLES tr, l, verdict, lsize, linside
-tvars == <<vars, tr, l, verdict, lsize, linside>>
+VARIABLES tr, l, verdict, lsize, linside, cur, allowed, obs
+tvars == <<vars, tr, l, verdict, lsize, linside, cur, allowed, obs>>
 Ev == Traces[tr].events
 LRUs == {"coll", "uric"}
-TInit == /\ Init /\ tr \in 1..Len(Traces)
+\* page and ctx are fixed by the trace BEFORE Init is evaluated (Init then only tests membership instead of enumerating
+\* [Threads -> Pages] x [Threads -> CtxVals] for every trace)
+TInit == /\ tr \in 1..Len(Traces)
          /\ page = [t \in Threads |-> Traces[tr].page[t]]
          /\ ctx = [t \in Threads |-> Traces[tr].ctx[t]]
+         /\ Init
          /\ l = 1 /\ verdict = "run" /\ lsize = [w \in LRUs |-> 0] /\ linside = [w \in LRUs |-> {}]
-Report(ok, i, clause) == PrintT(ToJson([t |-> Traces[tr].id, ok |-> ok, i |-> i, clause |-> clause]))
+         /\ cur = 0 /\ allowed = [t \in Threads |-> {}] /\ obs = {}
+Report(ok, i, clause) == PrintT(ToJson([t |-> Traces[tr].id, ok |-> ok, i |-> i, clause |-> clause, obs |-> obs']))
 InvClause == IF ~RenderIsolation' THEN "inv:RenderIsolation"
              ELSE IF ~BoundUnderConcurrency' THEN "inv:BoundUnderConcurrency"
              ELSE IF Cap > 0 /\ linside'["uric"] = {} /\ lsize'["uric"] > Bound THEN "inv:BoundUnderConcurrency:uri-cache"
@@ -55,15 +61,21 @@ CacheOps(p) == SelectSeq(Progs[p], LAMBDA o : o.op = "shared" /\ o.c = "cache")
 CacheKw(p) == IF Len(CacheOps(p)) = 0 THEN <<>> ELSE CacheOps(p)[1].kw
 SameShared == size' = lsize'["coll"] /\ inside' = linside'["coll"] /\ UNCHANGED <<page, ctx, phase, cell>>
 NoLru == UNCHANGED <<lsize, linside>>
+\* put_string / put_template racing with get_template of one URI: `cur` is the version the last completed put (or the file, 0)
+\* installed; allowed[t] are the versions that were current at some moment of thread t's pending get_template call.  C16 does
+\* not list put_string / put_template among its operations, so a call serving another version is NOT a rejection: it is
+\* recorded in `obs` (reported as an observation outside the property) and validation goes on -- exceptions, blocked
+\* threads, the context value and the size bound of such executions are judged as everywhere else
+NoPut == UNCHANGED <<cur, allowed, obs>>
 TStep ==
   /\ verdict = "run" /\ l <= Len(Ev) /\ UNCHANGED tr
   /\ LET e == Ev[l]  t == e.th IN
-     \/ /\ e.ev = "begin" /\ Begin(t) /\ NoLru /\ Finish("")
+     \/ /\ e.ev = "begin" /\ Begin(t) /\ NoLru /\ NoPut /\ Finish("")
      \/ /\ e.ev = "mark" /\ ip[t] >= 1 /\ ip[t] <= Len(Prog(t)) + 1
         /\ LET j == NextMark(Prog(t), ip[t])
                b == RunRange(Prog(t), ip[t], IF j > Len(Prog(t)) THEN Len(Prog(t)) ELSE j, buf[t], ctx[t]) IN
            /\ ip' = [ip EXCEPT ![t] = j + 1] /\ buf' = [buf EXCEPT ![t] = b] /\ UNCHANGED out
-           /\ NoLru /\ SameShared
+           /\ NoLru /\ NoPut /\ SameShared
            /\ Finish(IF j > Len(Prog(t)) \/ Prog(t)[j].n # e.n THEN "mark-order"
                      ELSE IF e.who # ctx[t] THEN "PrivateContext:value"
                      ELSE IF ~e.own THEN "PrivateContext:identity"
@@ -73,19 +85,28 @@ TStep ==
         /\ LET b == RunRange(Prog(t), ip[t], Len(Prog(t)), buf[t], ctx[t]) IN
            /\ ip' = [ip EXCEPT ![t] = Len(Prog(t)) + 2] /\ buf' = [buf EXCEPT ![t] = b]
            /\ out' = [out EXCEPT ![t] = e.out]          \* the observed output; RenderIsolation' compares it with Solo
-           /\ NoLru /\ SameShared
+           /\ NoLru /\ NoPut /\ SameShared
            /\ Finish(IF e.exc # "" THEN "OnlyDocumentedExceptions"       \* a render raised; e.exc = Type@module.function
                      ELSE IF NextMark(Prog(t), ip[t]) <= Len(Prog(t)) THEN "end-before-last-mark"
                      ELSE IF Len(b) # 1 THEN "PrivateStacks:unbalanced"
                      ELSE IF Solo(page[t], ctx[t]) # Traces[tr].solo[t] THEN "solo-output-differs-from-program-meaning"
                      ELSE "")
-     \/ /\ e.ev = "memo" /\ UNCHANGED <<ip, buf, out>> /\ NoLru /\ SameShared       \* what thread t read from a shared memo cell
+     \/ /\ e.ev = "memo" /\ UNCHANGED <<ip, buf, out>> /\ NoLru /\ NoPut /\ SameShared       \* what thread t read from a shared memo cell
         /\ Finish(IF ToSet(e.kw) = ToSet(CacheKw(page[t])) THEN "" ELSE "MemoCompleteWhenVisible:def_regions")
-     \/ /\ e.ev = "store_begin" /\ linside' = [linside EXCEPT ![e.w] = @ \cup {t}] /\ UNCHANGED lsize
+     \/ /\ e.ev = "store_begin" /\ linside' = [linside EXCEPT ![e.w] = @ \cup {t}] /\ UNCHANGED lsize /\ NoPut
         /\ UNCHANGED <<ip, buf, out>> /\ SameShared /\ Finish("")
-     \/ /\ e.ev = "store_end" /\ linside' = [linside EXCEPT ![e.w] = @ \ {t}] /\ lsize' = [lsize EXCEPT ![e.w] = e.n]
+     \/ /\ e.ev = "store_end" /\ linside' = [linside EXCEPT ![e.w] = @ \ {t}] /\ lsize' = [lsize EXCEPT ![e.w] = e.n] /\ NoPut
         /\ UNCHANGED <<ip, buf, out>> /\ SameShared /\ Finish("")
-     \/ /\ e.ev = "finish" /\ UNCHANGED vars /\ NoLru
+     \/ /\ e.ev = "get_begin" /\ UNCHANGED vars /\ NoLru /\ UNCHANGED <<cur, obs>>
+        /\ allowed' = [allowed EXCEPT ![t] = {cur}] /\ Finish("")
+     \/ /\ e.ev = "put" /\ UNCHANGED vars /\ NoLru /\ UNCHANGED obs /\ cur' = e.ver
+        /\ allowed' = [x \in Threads |-> IF allowed[x] = {} THEN {} ELSE allowed[x] \cup {e.ver}] /\ Finish("")
+     \/ /\ e.ev = "got" /\ UNCHANGED vars /\ NoLru /\ UNCHANGED cur
+        /\ allowed' = [allowed EXCEPT ![t] = {}]
+        /\ obs' = (IF e.ver \in allowed[t] THEN obs
+                   ELSE obs \cup {IF e.ver > cur THEN "put-vs-load:version-not-yet-put" ELSE "put-vs-load:older-than-completed-put"})
+        /\ Finish(IF e.who # ctx[t] THEN "PrivateContext:value" ELSE "")
+     \/ /\ e.ev = "finish" /\ UNCHANGED vars /\ NoLru /\ NoPut
         /\ Finish(IF e.status # "ok" THEN "NoThreadBlocked"
                   ELSE IF e.mutex # "free" THEN "MutexDiscipline:held-at-end"
                   ELSE IF \E x \in Threads : ~Done(x) THEN "finish-before-all-returned"
@@ -93,7 +114,7 @@ TStep ==
                   ELSE "")
 TStuck ==
   /\ verdict = "run" /\ l <= Len(Ev) /\ ~ENABLED TStep
-  /\ verdict' = "fail" /\ Report(FALSE, l, "not-enabled") /\ UNCHANGED <<vars, tr, l, lsize, linside>>
+  /\ verdict' = "fail" /\ UNCHANGED <<vars, tr, l, lsize, linside, cur, allowed, obs>> /\ Report(FALSE, l, "not-enabled")
 TNext == TStep \/ TStuck
 TSpec == TInit /\ [][TNext]_tvars
 =============================================================================
